@@ -262,7 +262,39 @@ func (m *Method) M__get__(instance, owner Object) (Object, error) {
 	if instance != None {
 		return NewBoundMethod(instance, m), nil
 	}
+	// Read through the class a method of a type needs its
+	// instance as the first argument, a function of a module
+	// stays as it is
+	if t, ok := owner.(*Type); ok && m.Module == nil {
+		// Find the type which defines the method
+		for _, baseObj := range t.Mro {
+			if base := baseObj.(*Type); base.Dict[m.Name] == Object(m) {
+				t = base
+				break
+			}
+		}
+		return m.unbound(t), nil
+	}
 	return m, nil
+}
+
+// Returns the method of type t in the form which takes the instance
+// from its first positional argument, eg list.append(l, 1)
+func (m *Method) unbound(t *Type) *Method {
+	return &Method{
+		Name:  m.Name,
+		Doc:   m.Doc,
+		Flags: m.Flags,
+		method: func(_ Object, args Tuple, kwargs StringDict) (Object, error) {
+			if len(args) == 0 {
+				return nil, ExceptionNewf(TypeError, "descriptor '%s' of '%s' object needs an argument", m.Name, t.Name)
+			}
+			if !args[0].Type().IsSubtype(t) {
+				return nil, ExceptionNewf(TypeError, "descriptor '%s' requires a '%s' object but received a '%s'", m.Name, t.Name, args[0].Type().Name)
+			}
+			return m.CallWithKeywords(args[0], args[1:], kwargs)
+		},
+	}
 }
 
 // FIXME this should be the default?
